@@ -8,19 +8,34 @@ EXTENDS Quote, IOUtils
 VARIABLES l, fin
 Tr == ndJsonDeserialize(IOEnv.TRACE)
 
-Logged(ts) == IF Tr[l].op = "split" THEN ts ELSE [i \in 1 .. Len(ts) |-> Trim(ts[i])]
-ObsTrace(op, args, ret, post) == Logged(ret) = Tr[l].ret
+\* Long-count events: {"op":"split_rep"|"tok_rep","d":[..],"s":B,"k":K,"ret":{"n":N,"first":[[..],..],"periodic":true}} - the real
+\* function was given B repeated K times (K up to 2^16 and beyond); the scanner runs over B alone and the law RepeatLaw of Quote.tla
+\* (checked by TLC on the bounded universe) gives the expectation: K * (tokens of B) tokens, periodic, first period = tokens of B.
+IsRep == Tr[l].op \in {"split_rep", "tok_rep"}
+Logged(ts) == IF Tr[l].op \in {"split", "split_rep"} THEN ts ELSE [i \in 1 .. Len(ts) |-> Trim(ts[i])]
+ObsTrace(op, args, ret, post) ==
+    IF IsRep THEN LET r == Tr[l].ret IN
+                  /\ EndsWithFreeDelim(d, s)
+                  /\ r.n = Tr[l].k * Len(ret) /\ r.periodic = TRUE /\ r.first = Logged(ret)
+    ELSE Logged(ret) = Tr[l].ret
 
 TraceInit == /\ l = 1 /\ fin = FALSE /\ s = Tr[1].s /\ d = Tr[1].d
              /\ pos = 1 /\ quote = 0 /\ cur = <<>> /\ toks = <<>> /\ intok = FALSE /\ done = FALSE
 
-IsScanEvent == Tr[l].op \in {"split", "tok"}
+IsScanEvent == Tr[l].op \in {"split", "tok", "split_rep", "tok_rep"}
 \* events that are not scans: the word utilities on the logged text, join on a logged token list
 \*   {"op":"words","d":[],"s":[..],"ret":{"n":N,"w":[[..],..],"p":[..]}}      {"op":"join","d":[],"s":[],"toks":[[..],..],"ret":[[..],[..],[..]]}
+\*   {"op":"words_rep","d":[],"s":B,"k":K,"idx":[i,..],"ret":{"n":N,"w":[[..],..],"p":[..]}}   num_words(B^K), get_word / get_pword at idx
+WordsRepMatches == LET r == Tr[l].ret  ix == Tr[l].idx IN
+                   /\ EndsWithFreeBlank(s)
+                   /\ r.n = Tr[l].k * NumWords(s)
+                   /\ r.w = [j \in 1 .. Len(ix) |-> WordOfRepeated(s, ix[j])]
+                   /\ r.p = [j \in 1 .. Len(ix) |-> PWordOfRepeated(s, ix[j])]
 PureExpected == IF Tr[l].op = "words"
                 THEN LET nw == NumWords(s) IN [n |-> nw, w |-> [i \in 1 .. nw |-> GetWord(i, s)], p |-> [i \in 1 .. nw |-> GetPWord(i, s)]]
                 ELSE [k \in 1 .. Len(JoinSeps) |-> Join(JoinSeps[k], Tr[l].toks)]
-PureMatches == IF Tr[l].op = "words"
+PureMatches == IF Tr[l].op = "words_rep" THEN WordsRepMatches
+               ELSE IF Tr[l].op = "words"
                THEN LET e == PureExpected r == Tr[l].ret IN r.n = e.n /\ r.w = e.w /\ r.p = e.p
                ELSE Tr[l].ret = PureExpected
 PureEvent == /\ ~done /\ ~IsScanEvent /\ PureMatches
@@ -30,7 +45,7 @@ RejectPure == /\ ~done /\ ~IsScanEvent /\ ~PureMatches
               /\ UNCHANGED <<vars, l, fin>>
 ScanStep == IsScanEvent /\ (SkipDelim \/ OpenQuote \/ CloseQuote \/ OtherQuoteLiteral \/ EscapedDelimOrQuote \/ Plain \/ EndToken \/ Finish)
 \* the scan is complete and the logged tokens differ from the reference's: say where, and stop
-RejectCase == /\ IsScanEvent /\ ScanNext(d, s, Cur).kind = "Finish" /\ Logged(toks) # Tr[l].ret
+RejectCase == /\ IsScanEvent /\ ScanNext(d, s, Cur).kind = "Finish" /\ ~ObsTrace("split", <<d, s>>, toks, TRUE)
               /\ PrintT(<<"TRACE_REJECTED_AFTER", l - 1, "OF", Len(Tr)>>)
               /\ UNCHANGED <<vars, l, fin>>
 NextEvent == /\ done /\ l < Len(Tr)
